@@ -304,6 +304,36 @@ func c14truncateAfterRejectedSave(cs c14case, steps []fsx.Step, at, k int, site 
 	if p != "" || size < 0 || !tr.OK() || tr.Skip || serr != nil {
 		return
 	}
+	// the same situation once more, but now the name is removed (fault-free) and the handle is only LOOKED at: a Stat
+	// stores nothing, so the name stays gone (writes through such a handle are F20's matter, looking is not)
+	if fw2, err := newC14World(cs.Shape, k); err == nil {
+		var fh2 fsx.Handles
+		if _, hung, _ := c14exec(fw2, steps[:at+1], &fh2); !hung {
+			fw2.hook.mu.Lock()
+			fw2.hook.failAt = -1
+			fw2.hook.mu.Unlock()
+			var gone, back bool
+			_ = core.Recover(func() {
+				if rm := fsx.Exec(fw2.fs, fsx.Step{K: "Remove", P: path}, &fh2, nil); !rm.OK() {
+					return
+				}
+				gone = true
+				_ = fsx.Exec(fw2.fs, fsx.Step{K: "H.Stat", Slot: op.Slot}, &fh2, nil)
+				_ = fsx.Exec(fw2.fs, fsx.Step{K: "H.Seek", Slot: op.Slot, Off: 0, Whence: io.SeekEnd}, &fh2, nil)
+				if fresh, ferr := fw2.fresh(); ferr == nil {
+					_, serr := hackpadfs.Stat(fresh, path)
+					back = serr == nil
+				}
+				fh2.CloseAll()
+			})
+			if gone {
+				res.Count("stat_after_rejected_save_and_remove", 1)
+				if back {
+					res.Violate(fmt.Sprintf("C14|%s|H.Stat|after-rejected-%s-and-remove|resurrected", cs.Shape, op.K), fmt.Sprintf("[%s] %s was rejected by the store (%s failure at store call #%d); the file was then removed by name and the handle only looked at (Stat, Seek to the end): a fresh look-up finds %q again", cs.Shape, op, site, k, path), wit)
+				}
+			}
+		}
+	}
 	res.Count("truncate_to_own_size_after_rejected_save", 1)
 	if int64(len(stored)) != size || (rd.OK() || rd.Err == "EOF") && int64(len(rd.Data)) == size && string(stored) != rd.Data {
 		res.Violate(fmt.Sprintf("C14|%s|H.Truncate|after-rejected-%s|reported-success", cs.Shape, op.K), fmt.Sprintf("[%s] %s was rejected by the store (%s failure at store call #%d); Truncate(%d), the size the handle has now, then reported success, but a fresh look-up finds %d bytes %q where the handle holds %q", cs.Shape, op, site, k, size, len(stored), clip60(string(stored)), clip60(rd.Data)), wit)
